@@ -9,7 +9,7 @@ From LV Require Import Common.Cases Seq.SeqCommon
      Seq.Ipa2Tokens Seq.Ipa2TokensProofs
      Seq.Token2Class Seq.Token2ClassProofs
      Seq.ProsodyBase Seq.Prosody Seq.ProsodyProofs Seq.ProsodyW Seq.ProsodyWProofs
-     Seq.ClassTokens Seq.ClassTokensProofs Seq.SeqExec Seq.SeqExecProofs.
+     Seq.ClassTokens Seq.ClassTokensProofs Seq.PipelineProofs Seq.SeqExec Seq.SeqExecProofs.
 From LVGen Require Import ProsodyStep ProsodyWeights ScTables.
 Import ListNotations.
 Local Open Scope Z_scope.
@@ -342,3 +342,74 @@ Theorem C14_checker_history_step :
       (exists w, ps_weights p = Ok w /\ length w = length (ps_toks p)))).
 Proof. exact pstep_lenb_spec. Qed.
 Print Assumptions C14_checker_history_step.
+
+(* ================================================================== *)
+(* 6. the clauses composed: from the string to the re-gapped tokens, no length premise left *)
+
+(* all token lists x all shipped models x every alignment of the class string ([aligned] = the
+   classes with gap classes inserted): because no class is a gap class, the aligned string has one
+   non-gap class per token, so class2tokens returns an output of the alignment's length with the
+   gaps exactly where the alignment has them, and de-gapping gives back the tokens *)
+Theorem C14_shipped_roundtrip :
+  forall name tbl (is_stress is_diac : char -> bool) (cldf : bool) (gap : token)
+         (toks cls aligned : list token),
+    In (name, tbl) sc_all ->
+    tokens2class (assoc_find tbl) is_stress is_diac cldf toks = Ok cls ->
+    aligned_of cls aligned ->
+    ~ In gap toks ->
+    degap gap (class2tokens gap toks aligned) = toks /\
+    Forall2 (fun o c => o = gap <-> is_gap_class c = true) (class2tokens gap toks aligned) aligned /\
+    length (class2tokens gap toks aligned) = length aligned.
+Proof. exact shipped_roundtrip. Qed.
+Print Assumptions C14_shipped_roundtrip.
+
+(* a break character (such as the gap symbol '-') never comes out of ipa2tokens as a token, so the
+   encoding premise "the gap symbol is not a token" holds for every tokenised string *)
+Theorem C14_ipa2tokens_no_break_token :
+  forall (k : kw) (s : list char) (toks : list token) (g : char),
+    k_expand_nasals k = false -> k_break k g = true -> g <> NULL_GLYPH ->
+    ipa2tokens k s = Ok toks -> ~ In [g] toks.
+Proof. exact ipa2tokens_no_break_token. Qed.
+Print Assumptions C14_ipa2tokens_no_break_token.
+
+(* from the string: every string of the quantifier (no blank, at least one non-break character) x
+   every keyword setting x every shipped model x every alignment: the call returns, the tokens
+   concatenate to the input, none is empty, there is one non-gap class per token, and mapping any
+   alignment of the class string back returns the tokens untouched with the alignment's gaps *)
+Theorem C14_string_roundtrip :
+  forall (k : kw) (s : list char) name tbl (is_stress is_diac : char -> bool) (cldf : bool) (g : char),
+    k_expand_nasals k = false ->
+    memc s BLANK = false -> nobreaks k s <> [] ->
+    In (name, tbl) sc_all ->
+    k_break k g = true -> g <> NULL_GLYPH ->
+    exists toks,
+      ipa2tokens k s = Ok toks /\
+      concat toks = glyph k s ++ nobreaks k s /\
+      Forall (fun t => t <> []) toks /\
+      forall cls aligned,
+        tokens2class (assoc_find tbl) is_stress is_diac cldf toks = Ok cls ->
+        aligned_of cls aligned ->
+        length cls = length toks /\
+        Forall (fun c => is_gap_class c = false) cls /\
+        degap [g] (class2tokens [g] toks aligned) = toks /\
+        Forall2 (fun o c => o = [g] <-> is_gap_class c = true) (class2tokens [g] toks aligned) aligned.
+Proof. exact string_roundtrip. Qed.
+Print Assumptions C14_string_roundtrip.
+
+(* non-vacuity: 't͡sɔyɡə' with the sca model and the alignment CU-KE *)
+Example ex_roundtrip_hyps :
+  memc [116; 865; 115; 596; 121; 609; 601] BLANK = false
+  /\ nobreaks ex_kw [116; 865; 115; 596; 121; 609; 601] <> []
+  /\ k_break ex_kw 45 = true /\ 45 <> NULL_GLYPH
+  /\ aligned_of [[67]; [85]; [75]; [69]] [[67]; [85]; [45]; [75]; [69]].
+Proof. repeat split; try reflexivity; try discriminate. Qed.
+
+Theorem C14_checker_roundtrip :
+  forall (p : pipe) (toks cls : list token),
+    pp_toks p = Ok toks -> pp_cls p = Ok cls ->
+    aligned_of cls (pp_aligned p) -> length cls = length toks -> ~ In (pp_gap p) toks ->
+    (pipe_backb p = true <->
+     (degap (pp_gap p) (pp_out p) = toks /\
+      Forall2 (fun o c => o = pp_gap p <-> is_gap_class c = true) (pp_out p) (pp_aligned p))).
+Proof. exact pipe_backb_spec. Qed.
+Print Assumptions C14_checker_roundtrip.
